@@ -109,6 +109,20 @@ def join_env(a: Optional[Env], b: Optional[Env]) -> Optional[Env]:
     return e
 
 
+def none_default_params(fi: FunctionInfo) -> List[str]:
+    """parameters whose default value is None (optional pre-computed data: `edges=None`)"""
+    out = []
+    ds = list(fi.defaults)
+    ps = fi.params[len(fi.params) - len(ds):] if ds else []
+    for p, d in zip(ps, ds):
+        if isinstance(d, ast.Constant) and d.value is None:
+            out.append(p)
+    return out
+
+
+NONE_KEY = "\0none:"
+
+
 class _Pre(ast.AST):
     """a precomputed confinement handed into an inlined helper (stands for the caller's expression U of a carrier hit)"""
     _fields = ()
@@ -153,6 +167,11 @@ class Confinement:
         self.cur = r
         self.params = fi.params
         env = Env({p: FS([p]) for p in fi.params})
+        # a function is verified on its own under the default binding of its optional parameters (`edges=None`: the data
+        # is computed inside); a call that passes them is evaluated at the call site, with what is passed
+        for p in none_default_params(fi):
+            env.conf[p] = TOP
+            env.conf[NONE_KEY + p] = TOP
         self.block(fi.node.body, env, fi)
         return r
 
@@ -185,12 +204,17 @@ class Confinement:
         bound to the confinements (and carrier-hit provenance) of the actual arguments; -> meet of the confinements of
         its returns, in the caller's operand names (None: not inlinable here)"""
         stack = getattr(self, "_inline_stack", [])
-        if h.name in stack or len(stack) >= 3 or len(call.args) != len(h.params) or call.keywords \
+        optional = none_default_params(h)
+        missing = h.params[len(call.args):]
+        if h.name in stack or len(stack) >= 3 or len(call.args) > len(h.params) or any(m not in optional for m in missing) or call.keywords \
                 or any(isinstance(a, ast.Starred) for a in call.args) or h.is_generator:
             return None
         cenv = Env()
         for p_, a in zip(h.params, call.args):
             cenv.conf[p_] = self.selfconf(a, env, fi)
+        for p_ in missing:
+            cenv.conf[p_] = TOP
+            cenv.conf[NONE_KEY + p_] = TOP
         # provenance: a parameter that receives  I = intersection(U, X.carrier)  (directly or through a local)
         for p_, a in zip(h.params, call.args):
             pv = env.prov.get(a.id) if isinstance(a, ast.Name) else self.carrier_prov(a)
@@ -330,11 +354,15 @@ class Confinement:
                         else:
                             add = TOP
                         return meet(self.ev(e.args[h.params.index(rp)], env, fi), add)
+                    passes_optional = any(p in none_default_params(h) for p in h.params[:len(e.args)])
                     c = FS()
-                    for p, a in zip(h.params, e.args):
-                        if p in hs:
-                            c = cup(c, self.selfconf(a, env, fi))
-                    if n.startswith("_"):
+                    if not passes_optional:
+                        for p, a in zip(h.params, e.args):
+                            if p in hs:
+                                c = cup(c, self.selfconf(a, env, fi))
+                    if n.startswith("_") or passes_optional:
+                        # (the summary speaks for the default binding of optional parameters; a call that passes them is
+                        # evaluated with what it passes)
                         ci = self.inline_helper(h, e, env, fi)
                         if ci is not None:
                             c = ci if ci == TOP else (cup(c, ci) if c != TOP else ci)
@@ -528,13 +556,12 @@ class Confinement:
                 X, Y = exprs[k]
                 self.refine(env, X, self.selfconf(Y, env, fi), "G4", fi)
 
-    @staticmethod
-    def carrier_prov(value):
+    def carrier_prov(self, value):
         """I = intersection(U, X.carrier) / intersection(X.carrier, U) with X a name and U not a carrier"""
         if isinstance(value, ast.Call):
             args = None
-            if isinstance(value.func, ast.Name) and value.func.id == "intersection" and len(value.args) == 2:
-                args = value.args
+            if isinstance(value.func, ast.Name) and (value.func.id == "intersection" or value.func.id in self.fns) and len(value.args) == 2:
+                args = value.args  # the dispatcher, or the handler of the pair called directly
             elif isinstance(value.func, ast.Attribute) and value.func.attr == "intersection" and len(value.args) == 1:
                 args = [value.func.value, value.args[0]]
             if args:
@@ -570,6 +597,7 @@ class Confinement:
         return plain(s.body) and plain(s.orelse)
 
     def invalidate(self, env: Env, name: str):
+        env.conf.pop(NONE_KEY + name, None)
         for k in [k for k in env.conf if k != name and (k.startswith(name + ".") or k.startswith(name + "[") or
                                                          ("(" + name + ")") in k)]:
             del env.conf[k]
@@ -641,6 +669,11 @@ class Confinement:
                 env = env.copy()
                 self.apply_helper_out(c, env, fi)
             return env
+        if isinstance(s, ast.If) and isinstance(s.test, ast.Compare) and len(s.test.ops) == 1 and isinstance(s.test.ops[0], (ast.Is, ast.IsNot)) \
+                and isinstance(s.test.left, ast.Name) and (NONE_KEY + s.test.left.id) in env.conf \
+                and isinstance(s.test.comparators[0], ast.Constant) and s.test.comparators[0].value is None:
+            # the optional parameter is known to hold its default None here: one branch only
+            return self.block(s.body if isinstance(s.test.ops[0], ast.Is) else s.orelse, env, fi)
         if isinstance(s, ast.If):
             et = self.narrow(s.test, env, True, fi)
             ef = self.narrow(s.test, env, False, fi)
@@ -675,6 +708,25 @@ class Confinement:
             return e0
         if isinstance(s, (ast.Continue, ast.Break)):
             return None
+        if isinstance(s, ast.Try):
+            # the body may be left at any statement: a handler starts from the join of the states in between
+            states = [env]
+            cur = env
+            for b in s.body:
+                cur = self.stmt(b, cur, fi) if cur is not None else None
+                if cur is not None:
+                    states.append(cur)
+            pre_h = None
+            for st_ in states:
+                pre_h = join_env(pre_h, st_)
+            out = self.block(s.orelse, cur, fi) if cur is not None else None
+            for h in s.handlers:
+                out = join_env(out, self.block(h.body, pre_h.copy() if pre_h is not None else None, fi))
+            if s.finalbody and out is not None:
+                out = self.block(s.finalbody, out, fi)
+            return out
+        if isinstance(s, ast.With):
+            return self.block(s.body, env, fi)
         if isinstance(s, (ast.Pass, ast.Import, ast.ImportFrom, ast.Assert, ast.Global)):
             return env
         raise AnalysisError("%s: confinement analysis does not model statement kind %s" % (fi.where(s), type(s).__name__))
